@@ -25,6 +25,7 @@ type stagedProp interface {
 	DiscardStaged()
 	RollbackCommit()
 	NotifyCommitted()
+	NotifyRolledBack()
 }
 
 type StagedConfigProp interface {
@@ -129,6 +130,9 @@ func UpdatePartialFromConfig(cfg *Config, updates map[string]any) (UpdateStatus,
 		// In reverse order, so that a property named twice ends up with its original value.
 		for i := len(stagedProps) - 1; i >= 0; i-- {
 			stagedProps[i].RollbackCommit()
+		}
+		for _, prop := range stagedProps {
+			prop.NotifyRolledBack()
 		}
 	}
 
